@@ -115,6 +115,10 @@ impl Thread {
 
                     let mut el = Element::new(push_pop_type, pointer, in_expression_evaluation);
 
+                    if let Some(fn_start) = j_element_obj.get("fnStart").and_then(|v| v.as_i64()) {
+                        el.function_start_in_output_stream = fn_start as i32;
+                    }
+
                     if let Some(temps) = j_element_obj.get("temp").and_then(|temp| temp.as_object())
                     {
                         el.temporary_variables = json_read::jobject_to_hashmap_values(temps)?;
@@ -163,6 +167,17 @@ impl Thread {
             }
             el_map.insert("exp".to_owned(), json!(el.in_expression_evaluation));
             el_map.insert("type".to_owned(), json!(el.push_pop_type as u32));
+
+            // Not in the reference format, which therefore re-arms the trimming of
+            // whitespace at the start of a function after a load (a whitespace-only
+            // line printed by the function then loses its newline). 0 is what an
+            // element loaded without the key gets.
+            if el.function_start_in_output_stream != 0 {
+                el_map.insert(
+                    "fnStart".to_owned(),
+                    json!(el.function_start_in_output_stream),
+                );
+            }
 
             if !el.temporary_variables.is_empty() {
                 el_map.insert(
